@@ -5,6 +5,7 @@ package smt
 import (
 	"fmt"
 	"math/big"
+	"sort"
 	"strings"
 )
 
@@ -274,6 +275,7 @@ func (c *Ctx) Add(as ...*Term) *Term {
 	if len(out) == 0 {
 		return c.IntC(acc)
 	}
+	sortByID(out)
 	if acc.Sign() != 0 {
 		out = append(out, c.IntC(acc))
 	}
@@ -281,6 +283,10 @@ func (c *Ctx) Add(as ...*Term) *Term {
 		return out[0]
 	}
 	return c.mk("+", Int, out...)
+}
+
+func sortByID(ts []*Term) {
+	sort.SliceStable(ts, func(i, j int) bool { return ts[i].ID < ts[j].ID })
 }
 
 func (c *Ctx) Neg(a *Term) *Term {
@@ -330,6 +336,7 @@ func (c *Ctx) Mul(as ...*Term) *Term {
 	if len(out) == 0 {
 		return c.IntC(acc)
 	}
+	sortByID(out)
 	if acc.Cmp(big.NewInt(1)) != 0 {
 		out = append([]*Term{c.IntC(acc)}, out...)
 	}
@@ -363,6 +370,12 @@ func (c *Ctx) Mod(a, b *Term) *Term {
 func (c *Ctx) Abs(a *Term) *Term {
 	if a.IsConst() {
 		return c.IntC(new(big.Int).Abs(a.Val))
+	}
+	switch a.Op {
+	case "abs", "bv2nat":
+		return a
+	case "mod":
+		return a // SMT-LIB mod is never negative
 	}
 	return c.mk("abs", Int, a)
 }
